@@ -555,6 +555,10 @@ def run(program, ctx):
 
     # LMDB answers OK=true before the writer thread runs: a key derivation that can raise for an admitted event loses it after the acknowledgement
     c01.rule_tagindex(program, ctx, prop=P, rid="C06.tagindex")
+    from . import c19 as _c19
+
+    # add_event waits for the previous round of notify tasks: a bounded per-connection queue parks them behind a client that does not read, and no later EVENT is answered
+    _c19.rule_queue(program, ctx, prop=P, rid="C06.queue")
     ctx.not_decided += [
         "'retrievable thereafter' as an end-to-end fact (engine semantics, LMDB writer thread having committed)",
         "'never refused except as duplicate' for all well-formed events (value-dependent faults inside pre_save/process_tags)",
